@@ -14,6 +14,7 @@ import (
 // (`return ..., nil`). Cleanup calls whose failure cannot change the outcome
 // are exempt by name, one line of reason each.
 var errExempt = map[string]string{
+	"(context.Context).Err":                         "a query of the context's state, not an operation that failed: what to do about a cancelled context is the caller's decision",
 	"(*os.File).Close":                              "closing a read handle / already-synced temp file: failure does not change what was read or published",
 	"os.Remove":                                     "best-effort cleanup",
 	"os.RemoveAll":                                  "handled by rule R06c where it matters",
